@@ -184,6 +184,7 @@ theorem nonemptyNode_height (cs : ClassSet) (icase neg : Bool) : (cs.nonemptyNod
 theorem classSetNode_height (cs : ClassSet) (icase neg : Bool) : (cs.node icase neg).height ≤ 3 := by
   unfold ClassSet.node
   simp only
+  generalize cs.absorbSingleCharacters = cs
   have := nonemptyNode_height { cs with alts := cs.alts.filter (fun s => !s.isEmpty) } icase neg
   split
   · simp only [makeAlt_pair, Node.height]; omega
@@ -426,7 +427,9 @@ theorem atomClassSetA_h {st : PState} {c : Nat} {rest0 : List Nat} (result : Lis
   simp only
   split
   · simp
-  · exact atomH_node (classSetNode_height _ _ _)
+  · split
+    · simp
+    · exact atomH_node (classSetNode_height _ _ _)
 
 theorem atomCharA_h {st : PState} {c' : Nat} {rest0 : List Nat} (result : List Node)
     (c : Nat) (hinp : st.input = c' :: rest0) : OkP (atomCharA st result c) (AtomH 1 result) := by
